@@ -64,7 +64,7 @@ func firstDiffSection(a, b string) string {
 	return "length"
 }
 
-type snapRec struct{ dump, roots, dlgView string }
+type snapRec struct{ dump, roots, dlgView, encView string }
 
 // runCase executes one case on both sides. drv may be nil (implementation-only: oracle still runs).
 func runCase(ops []string, drv *vh.Driver) (*failure, caseStats, error) {
@@ -102,7 +102,7 @@ func runCase(ops []string, drv *vh.Driver) (*failure, caseStats, error) {
 		isRev, revLive := false, false
 		switch f[0] {
 		case "snap":
-			snaps[-1] = snapRec{g.dump(), g.roots(), g.delegationsView()} // recorded before the snapshot is taken
+			snaps[-1] = snapRec{g.dump(), g.roots(), g.delegationsView(), g.validatorEncView()} // recorded before the snapshot is taken
 			gf, lf = []string{"snap"}, []string{"snap"}
 		case "rev":
 			isRev = true
@@ -158,6 +158,9 @@ func runCase(ops []string, drv *vh.Driver) (*failure, caseStats, error) {
 			}
 			gf[3], lf[3] = amt, amt
 		}
+		if f[0] == "la" {
+			lf = lf[:3]
+		}
 		if f[0] == "rwx" {
 			lf[0] = "rw"
 		}
@@ -171,7 +174,7 @@ func runCase(ops []string, drv *vh.Driver) (*failure, caseStats, error) {
 		}
 		cs.ops++
 		switch f[0] {
-		case "vc", "vu", "vr", "aw", "rw", "rwx", "dg":
+		case "vc", "vu", "vr", "la", "aw", "rw", "rwx", "dg":
 			cs.touchedVal = true
 		case "ab", "sb", "bal", "non", "code", "ss", "sui", "ca":
 			cs.touchedAcc = true
@@ -235,6 +238,9 @@ func runCase(ops []string, drv *vh.Driver) (*failure, caseStats, error) {
 			if project(gd) != project(rec.dump) {
 				return &failure{"oracle", fmt.Sprintf("state after RevertToSnapshot(%d) differs from the state when the snapshot was taken: %s", id, firstDiffSection(project(gd), project(rec.dump))), i,
 					strings.Fields(firstDiffSection(project(gd), project(rec.dump)))[0]}, cs, nil
+			}
+			if ev := g.validatorEncView(); ev != rec.encView {
+				return &failure{"oracle", fmt.Sprintf("RLP encodings of the validator records after RevertToSnapshot(%d) = %s, at snapshot time = %s", id, ev, rec.encView), i, "encoding"}, cs, nil
 			}
 			if dv := g.delegationsView(); dv != rec.dlgView {
 				return &failure{"oracle", fmt.Sprintf("GetDelegationsFrom after RevertToSnapshot(%d) = %s, at snapshot time = %s", id, dv, rec.dlgView), i, "delegations"}, cs, nil
@@ -370,8 +376,24 @@ func (g *gen) accOp() {
 	}
 }
 
+// UpdateLastActive: numbers around one base (same compact width as the stored one: the buffer-reuse case), at the
+// 1/2/3/5-byte width boundaries, and zero; both staking call patterns
+func (g *gen) lastActiveOp() {
+	r := g.r
+	pool := []string{"1000", "1001", "1002", "999", "1000", "255", "256", "0", "1", "65535", "65536", "4294967296", "4294967297"}
+	n := pool[r.Intn(len(pool))]
+	if r.Chance(50) {
+		n = pool[r.Intn(5)]
+	}
+	g.emit(fmt.Sprintf("la %d %s %s", g.val(), n, []string{"A", "B"}[r.Intn(2)]))
+}
+
 func (g *gen) valOp() {
 	r := g.r
+	if r.Chance(22) {
+		g.lastActiveOp()
+		return
+	}
 	switch r.Weighted([]int{10, 14, 3, 8, 4}) {
 	case 0:
 		g.emit(fmt.Sprintf("vc %d %d %d %s %s %d", g.val(), 1+r.Intn(3), r.Intn(2), g.stakeAmt(), g.stakeAmt(), 1000+r.Intn(3)))
@@ -568,7 +590,11 @@ func genDelegationLists(r *vh.RNG) []string {
 			case 1:
 				g.accOp()
 			case 2:
-				g.emit(fmt.Sprintf("vu %d %d %d = = %d", g.val(), 1+r.Intn(3), r.Intn(2), 1000+r.Intn(3)))
+				if r.Chance(50) {
+					g.lastActiveOp()
+				} else {
+					g.emit(fmt.Sprintf("vu %d %d %d = = %d", g.val(), 1+r.Intn(3), r.Intn(2), 1000+r.Intn(3)))
+				}
 			case 3:
 				if len(g.stack) < 5 {
 					l := fmt.Sprintf("L%d", g.nextL)
